@@ -1353,6 +1353,75 @@ def _fuse_open_coded_links(evs):
     return out
 
 
+def _pointee_record(p):
+    y = strip(p)
+    if isinstance(y, dict):
+        if y.get('k') == 'var' and y.get('ptr'):
+            return y.get('record')
+        if y.get('k') == 'member' and y.get('tptr'):
+            return y.get('trecord')
+        if y.get('k') == 'addr':
+            z = strip(y['e'])
+            if isinstance(z, dict) and z.get('k') == 'member' and not z.get('tptr'):
+                return z.get('trecord') or z.get('frecord')
+            if isinstance(z, dict) and z.get('k') == 'var' and not z.get('ptr'):
+                return z.get('record')
+    return None
+
+
+def as_container_of(x, records):
+    """`(T *)((char *)P - C)` where C is the byte offset of the one member m of T that has the type P points to
+    (offsetof(T, m) is folded to C by the front end): the node iv_container_of(P, T, m) builds, else None.
+    Decided from the record layout, not from the spelling."""
+    if not (isinstance(x, dict) and x.get('k') == 'cast' and x.get('record') in records
+            and str(x.get('to', '')).rstrip().endswith('*')):
+        return None
+    b = strip(x['e'])
+    if not (isinstance(b, dict) and b.get('k') == 'bin' and b.get('op') == '-'):
+        return None
+    cr = strip(b['r'])
+    if not (isinstance(cr, dict) and cr.get('k') == 'int' and cr['v'] >= 0):
+        return None
+    c = cr['v']
+    P = b['l']
+    while isinstance(P, dict) and P.get('k') == 'cast' and 'e' in P:
+        P = P['e']
+    if not isinstance(P, dict) or strip(P).get('k') == 'int':
+        return None
+    prec = _pointee_record(P)
+    if prec is None:
+        return None
+    flds = [fl for fl in records[x['record']].get('fields', []) if fl.get('offset') == c and fl.get('record') == prec and not fl.get('ptr')]
+    if len(flds) != 1:
+        return None
+    return {'k': 'container_of', 'record': x['record'], 'member': flds[0]['name'], 'e': P}
+
+
+def lift_container_of(fn, records):
+    """Rewrite every written-out iv_container_of in fn (events and branch conditions) into the node the macro gives."""
+    def r_(nd):
+        if nd.get('k') == 'cast' and nd.get('record'):
+            c = as_container_of(nd, records)
+            if c is not None:
+                return dict(c, e=subst(c['e'], r_))
+        return None
+
+    def has(v):
+        return any(y.get('k') == 'cast' and y.get('record') and isinstance(strip(y.get('e')), dict)
+                   and strip(y['e']).get('k') == 'bin' for y in walk(v))
+    n = 0
+    for b, blk in fn.blocks.items():
+        for e in blk.events:
+            for k_ in ('lhs', 'rhs', 'e', 'args', 'fnexpr', 'value'):
+                if k_ in e and isinstance(e[k_], (dict, list)) and has(e[k_]):
+                    e[k_] = subst(e[k_], r_)
+                    n += 1
+        if blk.term and blk.term.get('cond') is not None and has(blk.term['cond']):
+            blk.term = dict(blk.term, cond=subst(blk.term['cond'], r_))
+            n += 1
+    return n
+
+
 class Program:
     def __init__(self, unit_facts):
         self.units = {}
@@ -1396,6 +1465,12 @@ class Program:
                 if old is None or ('fields' in r and 'fields' not in old):
                     self.records[r['name']] = r
         self._callers = None
+        if os.environ.get('IVY_NO_LIFT') != '1':
+            for f in self.funcs.values():
+                try:
+                    lift_container_of(f, self.records)
+                except Exception:
+                    pass
 
     # -- resolution ---------------------------------------------------------
     def resolve(self, unit, name):
